@@ -15,7 +15,10 @@ from concurrent.futures import ThreadPoolExecutor
 VERIF = os.path.dirname(os.path.dirname(os.path.abspath(__file__)))
 REPO = os.environ.get("VERIF_REPO", "/repo")
 COQ = os.path.join(VERIF, "coq")
-BUILD = os.path.join(VERIF, "build")
+LOCKDIR = os.path.join(VERIF, "build")
+# scratch directory of this run (harness binary, generated case files, replay files): a second tree under test
+# (VERIF_REPO) gets its own through VERIF_BUILD_DIR so that runs on different trees do not disturb each other
+BUILD = os.environ.get("VERIF_BUILD_DIR") or LOCKDIR
 HARNESS = os.path.join(BUILD, "harness")
 COQ_ARGS = ["-Q", "theories", "PKO", "-Q", "props", "PKOProps", "-Q", "corr", "PKOCorr",
             "-w", "-notation-overridden,-deprecated-hint-without-locality,-deprecated-instance-without-locality"]
@@ -31,8 +34,8 @@ def log(*a):
 
 class Lock:
     def __init__(self, name):
-        os.makedirs(BUILD, exist_ok=True)
-        self.path = os.path.join(BUILD, name)
+        os.makedirs(LOCKDIR, exist_ok=True)
+        self.path = os.path.join(LOCKDIR, name)
 
     def __enter__(self):
         self.f = open(self.path, "w")
